@@ -327,7 +327,9 @@ def damaged_cases(rng, w, out, full=True):
 
 SOUP = ["{", "}", "[", "]", ",", ":", "\"", "\\", "\"a\"", "\"\"", "true", "false", "null", "tru", "nul", "0", "1", "-",
         "+", "1.5", "0.", ".5", "1e5", "1E+", "0x1f", "-0", "12345678901234567890", "18446744073709551616", "\\u", "\\u00",
-        "\\u0041", "\\ud83d", "\\ud83d\\ude00", "\\udc00", "\\n", "\\\"", "\\x", " ", "\t", "\n", "\r", "e", "E", ".", "a", "t", "f", "n", "u", "U"]
+        "\\u0041", "\\ud83d", "\\ud83d\\ude00", "\\udc00", "\\n", "\\\"", "\\x", " ", "\t", "\n", "\r", "e", "E", ".", "a", "t", "f", "n", "u", "U",
+        # units >= 0x80 (negative as a signed char) in the positions where hex digits are expected
+        "\\u00\u00e9\u00e9", "\\u\u0080\u00ff12", "\\ud83d\\ud\u00e9\u00e9\u00e9", "0x\u00e9", "0x1\u00ff", "\"\\u\u00c3\u00a9\u00c3\u00a9\""]
 
 
 def gen_text(rng, w):
